@@ -131,19 +131,24 @@ void h_FixBounds(void)
 
 /* ------------------------------------------------------------------------------------------- */
 #ifdef INST_TightenBounds
+/* A column bound had been tightened (propagatePseudoobj); if x_j sits on the tightened bound strictly inside its
+ * original bounds the step makes it BASIC.  Nothing is made non-basic in exchange, so clause (a) "delta 0 for a
+ * pure bound step" does NOT hold for this body: with the tolerance tests arbitrary, a non-basic column can turn
+ * BASIC (delta +1).  What is proved: the delta is 0 or +1, it is +1 only for a column that was ON_LOWER / ON_UPPER /
+ * FIXED, a BASIC or ZERO column is never touched, no status becomes UNDEFINED, x is not written, frame.
+ * (Whether unsimplify can reach the +1 case depends on values: it needs an optimal basis of the reduced LP with
+ * x_j non-basic ON the tightened bound - listed under not_covered / suspected weakness.) */
 void w_TightenBounds(PS_PARAMS, int m_j, double m_origupper, double m_origlower)
 __CPROVER_requires(PS_WF && 0 <= m_j && m_j < nC && DEFINED(cst[m_j]))
 __CPROVER_requires(GHOST_COL && GHOST_ROW)
 __CPROVER_assigns(W(cst))
 __CPROVER_ensures(DEFINED(cst[m_j]))
+__CPROVER_ensures(B(cst[m_j]) - B(__CPROVER_old(cst[m_j])) == 0 || B(cst[m_j]) - B(__CPROVER_old(cst[m_j])) == 1)    /* (a'), see above */
 __CPROVER_ensures((__CPROVER_old(cst[m_j]) == ZERO || __CPROVER_old(cst[m_j]) == BASIC) ==> cst[m_j] == __CPROVER_old(cst[m_j]))
 __CPROVER_ensures(__CPROVER_old(cst[m_j]) == ON_LOWER ==> (cst[m_j] == ON_LOWER || cst[m_j] == BASIC))
 __CPROVER_ensures(__CPROVER_old(cst[m_j]) == ON_UPPER ==> (cst[m_j] == ON_UPPER || cst[m_j] == BASIC))
 __CPROVER_ensures(__CPROVER_old(cst[m_j]) == FIXED ==> cst[m_j] != ZERO)
 __CPROVER_ensures(g_kc != m_j ==> cst[g_kc] == v_cs)                                  /* (c) */
-#ifdef CLAUSE_CARD
-__CPROVER_ensures(B(cst[m_j]) == B(__CPROVER_old(cst[m_j])))                          /* (a) pure bound step: delta 0 */
-#endif
 ;
 void h_TightenBounds(void)
 {
